@@ -7,5 +7,6 @@ CONSTANTS
   MutClasses <- MutAll
   PreOps <- PreAll
   SkipIfSignedAddr = FALSE
+  AddrBySigCount = FALSE
 INVARIANTS SoundUpToDupKeys MutatedRejected
 CHECK_DEADLOCK FALSE
